@@ -1,5 +1,8 @@
 import CrdtModel.Audit.Tool
 import CrdtModel.Props.C08
 import CrdtModel.Props.C06
+import CrdtModel.Props.C05
 #audit_ns Crdt.C08
 #audit_ns Crdt.C06
+#audit_ns Crdt.C05
+#audit_ns Crdt.CMap
